@@ -194,11 +194,15 @@ def model_lines(c, obs):
         return ["\t".join(["jar", "byvalue", E.reg[cid] or "-", ",".join(E.prov_algs), enc_str(cid), ro])]
     lines = ["jar\tpar\treset"]
     npush = 0
+    by = []
     for op, st in zip(c["ops"], obs["steps"]):
         if op[0] == "push":
-            lines.append("jar\tpar\tpush\t" + enc_str(op[1])); npush += 1
+            lines.append("jar\tpar\tpush\t" + enc_str(op[1]) + "\t60"); npush += 1
+            if st[0] == "urn":
+                by.append(op[1])
         elif op[0] == "redeem":
-            lines.append(f"jar\tpar\tredeem\t{enc_str(op[1])}\t{op[2]}")
+            cid = op[1] if op[1] != "same" else (by[op[2]] if op[2] < len(by) else "c_rs")
+            lines.append(f"jar\tpar\tredeem\t{enc_str(cid)}\t{op[2]}")
         else:
             lines.append(f"jar\tpar\ttick\t{op[1]}")
     return lines
